@@ -424,6 +424,18 @@ func (e *Engine) enterLoop(fr *Frame, li *loopInfo, st *State) *State {
 			}
 		}
 		for _, k := range keys {
+			if e.freeGhostKey(k) {
+				continue // bookkeeping ghosts: no frame assumed, none to prove
+			}
+			anyRef := false
+			for _, a := range allowed[k] {
+				if a == "*" {
+					anyRef = true
+				}
+			}
+			if anyRef {
+				continue
+			}
 			lf := loopFrame{key: k, pre: e.heapTerm(li.pre, k, e.heapSorts[k]), top: li.pre.top}
 			for r := range ws.heap[k].refs {
 				if maxID(r) <= mark {
@@ -883,9 +895,7 @@ func (e *Engine) execInstr(fr *Frame, st *State, ins ssa.Instruction) {
 		fr.vals[ins] = Val{K: KClosure, Cl: &Closure{Fn: ins.Fn.(*ssa.Function), Bindings: bs}}
 	case *ssa.Defer:
 		d := deferred{call: &ins.Call}
-		if !ins.Call.IsInvoke() {
-			d.fn = e.val(fr, ins.Call.Value)
-		}
+		d.fn = e.val(fr, ins.Call.Value)
 		for _, a := range ins.Call.Args {
 			d.args = append(d.args, e.val(fr, a))
 		}
